@@ -29,7 +29,7 @@ impl Check for C06 {
 
 fn meta() -> Meta {
     Meta {
-        rule: "in-domain sessions biased to scrolling (LF/VT/FF/IND/NEL on the bottom margin, RI on the top margin, SU, SD, IL, DL; counts 0, 1, < height, = height, > height, 65535; cursor above/inside/below the region; background pens; both screens; after resizes), one character per call; per step the whole observable state must equal the model's prediction: rows of the range shifted, vacated rows blank in the current pen, rows outside unchanged, scrollback grown by exactly the rows scrolled off a range starting at row 0 of the primary, in order - under a limit the rows handed out through that call's Changes.scrollback followed by the retained ones (each step's prediction starts from the previous observed scrollback, so loss, duplication or reordering within a run is caught at the step where it happens); non-trivial = >= 1 target step; distinct = digests of strata sequences",
+        rule: "prints that auto-wrap on the bottom margin are judged as scrolls too (incl. inner bottom margins); screens of 65535..70000 rows with DECSTBM default bottom (1 run in 4000); in-domain sessions biased to scrolling (LF/VT/FF/IND/NEL on the bottom margin, RI on the top margin, SU, SD, IL, DL; counts 0, 1, < height, = height, > height, 65535; cursor above/inside/below the region; background pens; both screens; after resizes), one character per call; per step the whole observable state must equal the model's prediction: rows of the range shifted, vacated rows blank in the current pen, rows outside unchanged, scrollback grown by exactly the rows scrolled off a range starting at row 0 of the primary, in order - under a limit the rows handed out through that call's Changes.scrollback followed by the retained ones (each step's prediction starts from the previous observed scrollback, so loss, duplication or reordering within a run is caught at the step where it happens); non-trivial = >= 1 target step; distinct = digests of strata sequences",
         assumptions: vec!["reference model is the trusted base; ED 3 tolerated; on the alternate screen only the view is compared", "DECSTBM validity is observed through the next scroll (margins are hidden state)", "a run in which avt panics is abandoned"],
         real: vec!["avt::Vt", "avt::parser::Parser (lock-step)"],
         simulated: vec!["App", "Window"],
